@@ -672,12 +672,13 @@ func (f *fileConfig) Reload(opts ...ReloadedConfigDataOption) error {
 	}
 
 	// if nothing's changed, we're fine
+	f.mux.Lock()
 	if f.mainHash == cfg.mainHash && f.rulesHash == cfg.rulesHash {
+		f.mux.Unlock()
 		return nil
 	}
 
 	// otherwise, update our state and call the callbacks
-	f.mux.Lock()
 	f.mainConfig = cfg.mainConfig
 	f.mainHash = cfg.mainHash
 	f.rulesConfig = cfg.rulesConfig
@@ -1162,6 +1163,9 @@ func (f *fileConfig) GetParentIdFieldNames() []string {
 }
 
 func (f *fileConfig) GetConfigMetadata() []ConfigMetadata {
+	f.mux.RLock()
+	defer f.mux.RUnlock()
+
 	ret := make([]ConfigMetadata, 2)
 	ret[0] = ConfigMetadata{
 		Type:     "config",
